@@ -75,7 +75,7 @@ CHECKS = {
    text="TLC checks Heartbeat.tla exhaustively for (ivl,timeout) in {(1,1),(1,2),(2,1),(2,3)} and a ZMTP/2.0 session over a bounded "
         "clock: PingWindow, PingAfterIdle, NotOverdue, ClosedOnlyWhenDead, DeadDetected, NoHbOnV2, WholeChunks, DataFifo, PongEcho. "
         "Simulated timelines are replayed on a real engine (on_tick on the model clock) and the real EgressBuffer with partial "
-        "writes; PING contexts of 0/1/16/17 bytes; the bytes leaving the buffer are parsed back into whole frames.",
+        "writes; PING contexts of 0/1/16/17 bytes; the bytes leaving the buffer are parsed back into whole frames. At socket level a raw peer completes the handshake and then stays silent, answers every PING, or streams data without answering (and a ZMTP/2.0 peer): PING times, contexts and the end of the connection are validated by TLC against the clauses of Heartbeat.tla (Trace_Heartbeat.tla).",
    note="The tokio interval timer is assumed to tick every HEARTBEAT_IVL; socket-level timing is checked with slack only. "
         "io_uring backend: no heartbeat clock (known finding, see C20).",
    technique="TLA+ spec (Heartbeat.tla) + TLC; TLC timelines replayed on the real engine and egress buffer",
